@@ -202,6 +202,12 @@ theorem stats_zero_while_no_discharge (P : ParkP) (k : Park) (dt : ℚ) (hz : St
   simp only [h0, if_false, z8, ge_iff_le]
   refine ⟨by split_ifs <;> rfl, rfl, z3, rfl, z5, rfl, z7, rfl, z9⟩
 
+/-- **A reset between iterations clears every interruption statistic, the running ones included**: whatever the park
+went through before (an interruption may still be open), after `reset_status` the statistics are zero and the park is
+not discharging — so by `stats_zero_while_no_discharge` they stay zero until a car of the new iteration is discharged. -/
+theorem reset_clears_statistics (k : Park) : StatsZero (EV.reset k) ∧ 0 ≤ (EV.reset k).currPCharge ∧ (EV.reset k).cars = [] := by
+  refine ⟨⟨rfl, rfl, rfl, rfl, rfl, rfl, rfl, rfl, rfl⟩, le_refl _, rfl⟩
+
 /-- Non-vacuity: table value 2.5 rounds (half to even) to 2 cars at 50 % and 80 %. -/
 example : (drawCars { bat := { pMax := 9/125, qMax := 9/125, eMax := 7/10, socMin0 := 1/5, socMax := 9/10, eta := 19/20 }, v2g := true, numCars := 3 }
     (5/2) [1/2, 4/5, 3/10]).map (fun r => (r.1, r.2.length)) = some (2, 2) := by decide +kernel
